@@ -114,6 +114,7 @@ pub fn run_prop(prop: &Prop, tier: Tier, only_part: Option<&str>) -> i32 {
     }
   });
 
+  let known_early = load_known();
   let mut outcomes: Vec<PartOutcome> = Vec::new();
   let n_parts = prop
     .parts
@@ -161,7 +162,12 @@ pub fn run_prop(prop: &Prop, tier: Tier, only_part: Option<&str>) -> i32 {
         break;
       }
       best = Some((st, *mode));
-      if !viol_acc.is_empty() {
+      let any_unknown = viol_acc.iter().any(|(_, v)| {
+        !known_early.iter().any(|f| {
+          f.property == prop.id && f.status == "known" && f.signature == v.signature
+        })
+      });
+      if any_unknown {
         break; // the first counterexample has the fewest deviations
       }
     }
